@@ -92,6 +92,26 @@ def _lexico_table(ctx, b, sp):
     return True
 
 
+PLUMBING = ('clone', 'as_ref', 'deref', 'borrow', 'to_owned', 'into', 'from', 'new', 'as_ptr', 'cloned', 'copied')
+
+
+def _carries(t, pred, depth=0):
+    """the term selected by pred is a *component* of t: reached through aggregates and reference / smart-pointer plumbing only"""
+    if depth > 12 or not isinstance(t, tuple) or not t:
+        return False
+    if pred(t):
+        return True
+    if t[0] == 'aggr':
+        return any(_carries(v, pred, depth + 1) for (f, v) in t[3])
+    if t[0] == 'tuple':
+        return any(_carries(v, pred, depth + 1) for v in t[1])
+    if t[0] == 'call' and t[1].split('::')[-1] in PLUMBING and t[2]:
+        return _carries(t[2][0], pred, depth + 1)
+    if t[0] in ('ref', 'deref', 'cast') and len(t) > 1:
+        return any(_carries(x, pred, depth + 1) for x in t[1:] if isinstance(x, tuple))
+    return False
+
+
 def r_nodup(ctx):
     F = ctx.F
     # ---- (c) len / is_empty / clear ----------------------------------------------------------------
@@ -124,6 +144,11 @@ def r_nodup(ctx):
     ctx.check(has_state and has_depth, 'R11.d', 'dedup-key/push', pb, pb.loc(ent[0][0]),
               'push looks the sub-problem up under a key derived from BOTH its state and its depth (like the cache and the dominance store)',
               'NoDupFringe::push identifies a sub-problem by %s: equal states at different depths are coalesced into one entry' % M.show(key))
+    # ... and the key IS the state (compared with Eq on a hit), not a digest of it: the state reaches the key through tuples / structs and
+    # reference or Arc plumbing only — a hash / fingerprint of the state identifies two colliding sub-problems with each other
+    ctx.check(_carries(key, lambda x: node(x, 'state')), 'R11.d', 'dedup-key-carries-the-state/push', pb, pb.loc(ent[0][0]),
+              'the dedup key contains the state itself (an Eq comparison decides a hit)',
+              'NoDupFringe::push identifies a sub-problem by %s: the state enters the key through a function (a digest), so two distinct sub-problems whose digests collide are coalesced' % M.show(key)[:200])
     entt = pb.origin.call(ent[0][1], pb.term_point(ent[0][0]))
     def arm(name_):
         return [(tb, 0) for bbk in pb.live_blocks() if pb.term(bbk)['k'] == 'switch' for (tb, lab) in pb.succ(bbk)
@@ -297,6 +322,8 @@ def r_nodup(ctx):
         ks, kd = M.contains(k, lambda x: popped(x, 'state')), M.contains(k, lambda x: popped(x, 'depth'))
         ctx.check(ks and kd, 'R11.d', 'dedup-key/pop', qb, qb.loc(rm[0][0]), 'pop forgets the key (state, depth) of the popped node: the same lookup path as push',
                   'NoDupFringe::pop removes the key %s: not derived from both state and depth of the popped node' % M.show(k)[:200])
+        ctx.check(_carries(k, lambda x: popped(x, 'state')), 'R11.d', 'dedup-key-carries-the-state/pop', qb, qb.loc(rm[0][0]), 'the key forgotten by pop contains the state itself',
+                  'NoDupFringe::pop removes the key %s: a digest of the state, not the state' % M.show(k)[:200])
         r = qb.reach(qb.after(srp), avoid=[qb.term_point(rm[0][0])])
         good = not any(p in r for p in ret_points(qb))
     ctx.check(good, 'R11.c', 'pop/forgets-key', qb, qb.loc(sbb), 'every path that removed the root forgets its key', 'a path of pop removes the heap root but leaves its key in `states`: a later push of that sub-problem is merged into a dead slot and lost')
